@@ -209,6 +209,10 @@ fn exec_op(bars: &BTreeMap<i64, ProgressBar>, mp: &Option<MultiProgress>, mine: 
         "set_position" => pb.unwrap().set_position(7),
         "update" => pb.unwrap().update(|s| s.set_pos(3)),
         "set_message" => pb.unwrap().set_message("m"),
+        "reset_elapsed" => pb.unwrap().reset_elapsed(),
+        "reset_eta" => pb.unwrap().reset_eta(),
+        "set_length" => pb.unwrap().set_length(9),
+        "inc_length" => pb.unwrap().inc_length(1),
         "finish" => pb.unwrap().finish(),
         "println" => pb.unwrap().println("L"),
         "suspend" => pb.unwrap().suspend(|| {}),
